@@ -49,13 +49,19 @@ func scriptedRequest(ref *reference, w int) *proto.WriteRequest {
 }
 
 func runLeader(ref *reference, hist string, crashAt int64, trace bool) (out outcome) {
+	hist, injKind, injK := splitHist(hist)
+	inj := &injector{}
+	if injKind == '@' {
+		inj.k = injK
+		inj.act = func(inner kv.KV) error { return inner.Flush() }
+	}
 	cfs := newCountFS(crashAt, trace)
 	dir := filepath.Join(scratch, fmt.Sprintf("l%d", dirSeq.Add(1)))
 	fsReg.Store(dir, vfs.FS(cfs))
 	defer fsReg.Delete(dir)
 	defer os.RemoveAll(dir)
 	makeDurableDir(cfs.mem, filepath.Join(dir, ns, fmt.Sprintf("shard-%d", shard)))
-	obs := &observer{}
+	obs := &observer{inj: inj}
 	walf := wal.NewWalFactory(&wal.FactoryOptions{BaseWalDir: filepath.Join(dir, "wal"), Retention: time.Hour, SegmentSize: 256 * 1024, SyncData: true})
 	defer walf.Close()
 	var factories []kv.Factory
@@ -109,6 +115,7 @@ func runLeader(ref *reference, hist string, crashAt int64, trace bool) (out outc
 		return fail("step-error:election", "initial election: %v", err)
 	}
 	out.openOps = cfs.n.Load()
+	inj.armed.Store(true)
 	w := 0
 	acked := 0
 	alive := true
@@ -119,9 +126,13 @@ func runLeader(ref *reference, hist string, crashAt int64, trace bool) (out outc
 		case 'W':
 			req := scriptedRequest(ref, w)
 			w++
+			before := inj.seen.Load()
 			if _, err := lc.WriteBlock(ctx, req); err != nil {
 				closeLC(lc, obs)
 				return fail("step-error:WriteBlock", "step %d: request %d: %v", si, w-1, err)
+			}
+			if n := inj.seen.Load() - before; n > out.maxCommitsPerEntry {
+				out.maxCommitsPerEntry = n
 			}
 			acked++
 		case 'E':
@@ -159,6 +170,9 @@ func runLeader(ref *reference, hist string, crashAt int64, trace bool) (out outc
 		cfs.curStep.Store(int64(len(hist)))
 		cfs.freeze("<end of history>")
 	}
+	inj.armed.Store(false)
+	out.commits = inj.seen.Load()
+	out.injected = inj.fired.Load()
 	out.fsOps = cfs.n.Load()
 	out.frozenStep = cfs.frozenStep.Load()
 	out.frozenOp, _ = cfs.frozenOp.Load().(string)
@@ -172,6 +186,12 @@ func runLeader(ref *reference, hist string, crashAt int64, trace bool) (out outc
 
 	// ---- restart
 	where := fmt.Sprintf("crash at fs-op %d (before %q, during step %d), %d writes acknowledged", crashAt, out.frozenOp, out.frozenStep, acked)
+	if out.injected {
+		where += fmt.Sprintf(", KV flushed right before batch commit %d of the node", injK)
+	}
+	if err := inj.failure(); err != nil {
+		return fail("step-error:InjectedFlush", "%s: %v", where, err)
+	}
 	nBefore := len(obs.kvs)
 	lc2, err := newLC()
 	if err != nil {
@@ -257,7 +277,7 @@ func runLeader(ref *reference, hist string, crashAt int64, trace bool) (out outc
 		return fail("replay-does-not-converge", "%s: after applyAllEntriesIntoDB from %d: %s", where, c+1, firstDiff(dumps[len(log)], d))
 	}
 	// and it keeps serving
-	if w < maxWrites {
+	if w < len(ref.log) {
 		if _, err := lc2.WriteBlock(ctx, scriptedRequest(ref, w)); err != nil {
 			return fail("write-after-recovery-failed", "%s: %v", where, err)
 		}
